@@ -131,16 +131,22 @@ def _classify(tables, text, ctx):
 _REAL = None
 
 
-def real_harness():
+def real_harness(internal=False):
     global _REAL
     if _REAL is None:
         _REAL = scan.Harness(tap=True)
+        if internal:
+            from vf import taps
+            n = taps.install_internal_tap(_REAL.tap.originals)
+            _REAL.internal_names = n
     return _REAL
 
 
 def judge_real(data, k, sel, ctx, case, r=None, label=""):
     ctx.evaluated()
-    h = real_harness()
+    h = real_harness(internal=sel.c07)
+    if sel.c07:
+        ctx.counters["decoder_functions_wrapped_at_module_level"] = getattr(h, "internal_names", 0)
     from multidecoder.multidecoder import DEFAULT_DEPTH_LIMIT
 
     kk = DEFAULT_DEPTH_LIMIT if k is None else k
@@ -161,6 +167,7 @@ def judge_real(data, k, sel, ctx, case, r=None, label=""):
         me.check_c06_stream(root, data, kk, h.tap, report, counts)
     if sel.c07:
         me.check_c07_bound(root, kk, h.tap, report, counts)
+        me.check_c07_internal(kk, h.tap, report, counts)
     if sel.c08:
         me.check_c08(root, h.tap, report, counts, r)
     if sel.c07 and -3 <= kk <= 12:
